@@ -68,6 +68,7 @@ class FuncResult:
         self.escaped = {}          # exception class -> count (raises clause evidence)
         self.truncated = False
         self.covers = {}           # implication-shaped clause -> antecedent satisfiable on some path
+        self.ob_cache = set()      # (obligation, decision prefix, occurrence) instances already discharged on an earlier path
         self.xchecks = []          # path models with the engine's predicted outcome, for the CPython cross-check of the encoder
         self.xskipped = 0
 
@@ -118,10 +119,22 @@ class Ctx:
             ob.discharged += 1
             ob.backends["trivial"] = ob.backends.get("trivial", 0) + 1
             return
+        # paths are explored by re-execution: an instance reached under the same decision prefix (and the same occurrence count) is the SAME
+        # formula under the same path condition as on an earlier path, where it was discharged -- it is not sent to the solver again
+        sig = (name, tuple(e[1] for e in run.log))
+        occ = run.ob_occ.get(sig, 0)
+        run.ob_occ[sig] = occ + 1
+        ckey = sig + (occ,)
+        if ckey in fr.ob_cache:
+            ob.discharged += 1
+            ob.backends["same-prefix"] = ob.backends.get("same-prefix", 0) + 1
+            run.assume(t)
+            return
         r = run.check(z3.Not(t))
         ob.time += time.time() - t0
         if r == z3.unsat:
             ob.discharged += 1
+            fr.ob_cache.add(ckey)
             ob.backends["z3"] = ob.backends.get("z3", 0) + 1
             if ob.sample_smt is None:
                 ob.sample_smt = str(t)[:400]
@@ -239,7 +252,11 @@ class Verifier:
             fr.solver_calls += run.n_solver
             fr.solver_time += run.t_solver
             fr.imprecise.extend(run.imprecise)
-            nxt = E.next_forced(run.log)
+            try:
+                nxt = E.next_forced(run.log)
+            except E.Unsupported as u:
+                fr.unsupported.append(str(u))
+                break
             if nxt is None:
                 break
             forced = nxt
